@@ -158,6 +158,22 @@ CHECKS = {
         "operands; projectVector and lazy operands not bound; several open known findings.",
         "3/C16",
     ),
+    "C11": (
+        "model_checking",
+        "TLA+ Temporal.tla (textbook strong finite-trace semantics Sat, Doomed, a transcription of the rv_ltl four-valued monitor "
+        "with an as-implemented/corrected switch, and the printer of the concrete syntax) checked by TLC on every (formula, trace "
+        "prefix) of the batch; bound to the code by replay: generated Scenic programs whose atoms read a harness-owned step-indexed "
+        "truth table, one DummySimulator run per (formula, placement, trace), outcome compared with TLC's record; proposition tree "
+        "read back for both parenthesisations",
+        "For every formula of the batch TLC enumerates all traces over two atoms up to length 3 (quick) / 4 (thorough), checks "
+        "MonitorExact, RejectSound, DemandExact, CurrentStepOnly, DiffOnlyUnderTrigger, OutcomeVerdict (and DoomMonotone, "
+        "HorizonStable, TrueIsAssured, Dualities on a lemma batch); the real `require` at top level and in a sub-scenario's setup "
+        "block must be accepted iff Sat, rejected early only where Doomed, at once for `always` of a false non-temporal condition; "
+        "the tree built from minimal and fully parenthesised text must be the formula.",
+        "Two atoms, traces <= 4, depth <= 3 (depth 3 sampled); atoms are pure table look-ups; a `require` executed inside a compose "
+        "block is not exercised (undocumented timing); known finding: third-party rv_ltl until at an offset.",
+        "3/C11",
+    ),
     "C12": (
         "model_checking",
         "TLA+ Dynamics.tla (the reference's ten-step procedure, one action per numbered step, plus a coroutine machine for "
